@@ -241,6 +241,7 @@ def p_c05(run):
     import whole as W
     q = run.tier == "quick"
     whole_tie(run, ("native", "w32") if q else ("native", "w32", "noua", "neutral", "neutral32"), W.pctr_parts(q))
+    whole_tie(run, ("native",) if q else ("native", "w32", "neutral"), W.comp_parts(q))
     whole_tie(run, ("native",) if q else ("native", "w32", "noua"), W.vctr_parts(q) + W.sctr_parts(q))
     run_scripts(run, G.gen_c05(run.rng, run.tier), std_variants(run, cfgs))
 
